@@ -403,6 +403,10 @@ def sub_map(r, n, i):
         return "uniform_int", np.full(n, s, dtype=int), s
     if k in (2, 3):
         a = r.integers(1, SUB_MAX + 1, size=n)
+        if k == 3 and (i // 6) % 2 == 1:
+            # the map as a user may hold it: a compact integer type (sub sizes are small numbers)
+            dt = [np.int8, np.uint8, np.int16, np.int32][(i // 12) % 4]
+            return "per_pixel:" + np.dtype(dt).name, a.astype(dt), None
         return "per_pixel", a.astype(int), None
     if k == 4:
         lo, hi = sorted(int(v) for v in r.choice(np.arange(1, SUB_MAX + 1), size=2, replace=False))
